@@ -59,8 +59,15 @@ def InjectCombine(rng, shared=True, agg='Sum'):
        Unify(t, AggE('Sum', Op('+', Var(cy), s),
                      [Atom('Callee', [('col0', x), ('col1', s)]),
                       Atom('V', [('col0', x), ('col1', Var(cy))])]))])])
-  prog = Prog([T, U, Vp, callee, caller, caller2])
-  return prog, ['Callee', 'Caller', 'CallerAgg'], [
+  # the callee's value used INSIDE the caller's own aggregating expression,
+  # the call itself outside of it
+  caller3 = Pred('CallerMix', [Rule(
+      [('col0', x, ''), ('col1', t, '')],
+      [Atom('Callee', [('col0', x), ('col1', s)]),
+       Unify(t, AggE('Sum', Op('+', Var(loc), s),
+                     [Atom('V', [('col0', x), ('col1', Var(loc))])]))])])
+  prog = Prog([T, U, Vp, callee, caller, caller2, caller3])
+  return prog, ['Callee', 'Caller', 'CallerAgg', 'CallerMix'], [
       'fam_inject_combine', 'fam_shared_local' if shared else 'fam_distinct_local']
 
 
